@@ -1,5 +1,6 @@
 import MesaModel.Proofs.Viz
 import MesaModel.Proofs.VizLayers
+import MesaModel.Proofs.VizAltair
 /-!
 # C20 — visualisation data shows each agent once, where it is, as portrayed
 
@@ -298,6 +299,68 @@ theorem C20_altair_row_values (heap : Heap) (p : Portrayal) (a : Agent) (l : Loc
       ∀ k, k ≠ "x" → k ≠ "y" → Dict.get? row k = Dict.get? (portrayed heap p a.id) k :=
   ⟨_, by simp [rowOf, hl], altairRow_spec _ l⟩
 
+/-- The Altair chart (`_draw_grid`): its data are the rows of `C20_altair_one_row_per_agent`; the encoding is read off
+    the row of the *first* agent of `space.agents` — a colour / size channel iff that agent's portrayal has the key,
+    tooltips for its other keys (all but colour, size, x, y) in the portrayal's order — and of `{}` for a space without
+    agents; the marks get the default size `30000 / min(width, height)²` exactly when sizes do not come from the rows;
+    x and y are ordinal (nominal for `mesa.space.ContinuousSpace`). -/
+theorem C20_altair_chart_encoding {sp : Space} (h : Reachable sp) (heap : Heap) (p : Portrayal)
+    (hs : altairSupported sp.fam = true) :
+    ∃ c, altairChart sp heap p = .ok c ∧
+      c.rows = (spaceAgents sp).filterMap (rowOf heap p) ∧
+      (spaceAgents sp = [] → c.color = false ∧ c.size = false ∧ c.tooltip = []) ∧
+      (∀ a rest, spaceAgents sp = a :: rest →
+        c.color = Dict.hasKey (portrayed heap p a.id) "color" ∧
+        c.size = Dict.hasKey (portrayed heap p a.id) "size" ∧
+        c.tooltip = (Dict.keys (portrayed heap p a.id)).filter fun k => !invalidTooltips.contains k) ∧
+      (c.markSize = none ↔ c.size = true) ∧
+      (c.size = false → c.markSize = some ⟨30000, (min sp.w sp.h) * (min sp.w sp.h)⟩) ∧
+      c.xyType = (if sp.fam = .cs then "nominal" else "ordinal") := by
+  have hr := ((C20_altair_one_row_per_agent h heap p).1 hs).1
+  refine ⟨_, altairChart_eq hr, rfl, fun he => ?_, fun a rest he => ?_, ?_, ?_, rfl⟩
+  · simp only [he, List.filterMap_nil]
+    exact ⟨rfl, rfl, rfl⟩
+  · obtain ⟨l, hl⟩ := spaceAgents_located (reachable_wf h) a (by rw [he]; exact List.mem_cons_self)
+    simp only [he, firstRow_filterMap heap p a rest hl]
+    exact ⟨hasKey_altairRow _ l (by decide) (by decide), hasKey_altairRow _ l (by decide) (by decide),
+      keys_altairRow_filter _ l _ (by decide) (by decide)⟩
+  · simp only
+    split <;> simp_all
+  · intro hsz
+    simp only at hsz ⊢
+    rw [hsz]
+    rfl
+
+/-- A portrayal that gives every agent a colour (a size) is encoded with it, one that gives none is not — whatever
+    the order of the agents.  (A key returned for some agents only is encoded iff the first agent of `space.agents`
+    has it: seen, not counted — the rows carry the values either way.) -/
+theorem C20_altair_uniform_portrayal_encoded {sp : Space} (h : Reachable sp) (heap : Heap) (p : Portrayal)
+    (hs : altairSupported sp.fam = true) {c : AltairChart} (hc : altairChart sp heap p = .ok c) :
+    (sp.placed ≠ [] → (∀ a ∈ sp.placed, Dict.hasKey (portrayed heap p a.id) "color" = true) → c.color = true) ∧
+    ((∀ a ∈ sp.placed, Dict.hasKey (portrayed heap p a.id) "color" = false) → c.color = false) ∧
+    (sp.placed ≠ [] → (∀ a ∈ sp.placed, Dict.hasKey (portrayed heap p a.id) "size" = true) → c.size = true) ∧
+    ((∀ a ∈ sp.placed, Dict.hasKey (portrayed heap p a.id) "size" = false) → c.size = false) := by
+  obtain ⟨c', hc', _, hnil, hcons, _⟩ := C20_altair_chart_encoding h heap p hs
+  rw [hc] at hc'
+  injection hc' with hc'
+  subst hc'
+  have hperm := spaceAgents_perm (reachable_wf h)
+  have hmem : ∀ a, a ∈ spaceAgents sp → a ∈ sp.placed := fun a ha => hperm.subset ha
+  have hne : sp.placed ≠ [] → spaceAgents sp ≠ [] := by
+    intro hp he
+    have := hperm.length_eq
+    rw [he] at this
+    exact hp (List.length_eq_zero_iff.mp this.symm)
+  cases he : spaceAgents sp with
+  | nil =>
+    obtain ⟨h1, h2, _⟩ := hnil he
+    exact ⟨fun hp => absurd he (hne hp), fun _ => h1, fun hp => absurd he (hne hp), fun _ => h2⟩
+  | cons a rest =>
+    obtain ⟨h1, h2, _⟩ := hcons a rest he
+    have ha : a ∈ sp.placed := hmem a (by rw [he]; exact List.mem_cons_self)
+    exact ⟨fun _ hall => by rw [h1]; exact hall a ha, fun hall => by rw [h1]; exact hall a ha,
+      fun _ hall => by rw [h2]; exact hall a ha, fun hall => by rw [h2]; exact hall a ha⟩
+
 /-! ## property layers -/
 
 /-- Orthogonal grids: the image handed to `imshow(origin="lower")` shows `data[x, y]` in column `x` of image
@@ -552,6 +615,14 @@ example : ¬ bindsByKeyword [⟨"self", .posOrKw, false⟩, ⟨"kwargs", .posOrK
   subst e1; subst e2
   have := hr ⟨"kwargs", .posOrKw, false⟩ (by simp) rfl (by simp) (by simp)
   simp at this
+
+-- Altair: the encoding follows the first agent of `space.agents` (agent 2, cell (0,1)): its dict has a z-order only, so
+-- neither colour nor size is encoded and the marks get the default size 30000 / 2²; the tooltips are its other keys
+example : (altairChart exSpace exHeap exPortrayal).toOption.map (fun c => (c.color, c.size, c.tooltip)) =
+      some (false, false, ["zorder"]) ∧
+    (altairChart exSpace exHeap exPortrayal).toOption.map (fun c => (c.markSize, c.xyType, c.rows.length)) =
+      some (some ⟨30000, 4⟩, "ordinal", 3) := by
+  refine ⟨by decide, by decide⟩
 
 -- property layers: a 2 × 2 grid with two layers; the request names one of them, an unknown layer and the other
 def exLayers : List (String × Layer) := [("a", ⟨2, 2, [0, 1, 2, 3]⟩), ("b", ⟨2, 2, [5, 5, 5, 5]⟩)]
